@@ -68,3 +68,32 @@ Check C02_rulapp_zero_no_apps : forall comp lim r apps,
   run_prover_trace comp lim = Ok (r, apps) -> r_rulapp r = 0 -> apps = [].
 Check C02_prover_mono : forall comp n m r,
   run_prover comp n = Ok r -> r_result r <> xlimit -> n <= m -> run_prover comp m = Ok r.
+
+(** F14 refutation witnesses *)
+From BB Require Import F14Witness.
+Check C02_F14_witness :
+  from_str f14_text = Some f14_prog /\
+  run_prover f14_prog 400 = Ok (mkRes undfnd 53 46 13 4 [] (Some (16, 0))) /\
+  halts_at (to_prog f14_prog) init_config 79 (14, 0) /\
+  (forall n sl, halts_at (to_prog f14_prog) init_config n sl -> n = 79%nat /\ sl = (14, 0)) /\
+  (forall n, ~ halts_at (to_prog f14_prog) init_config n (16, 0)).
+Check C02_verdict_refuted_F14 :
+  exists comp lim r apps,
+    run_prover_trace comp lim = Ok (r, apps) /\ r_result r = undfnd /\
+    ~ (exists n q z, tm_steps (to_prog comp) n init_config = Some (q, z) /\
+         r_last_slot r = Some (q, zc z) /\
+         halts_at (to_prog comp) init_config n (q, zc z) /\ marks_of z = r_marks r).
+Check C02_verdict_slot_refuted_F14 :
+  exists comp lim r sl n' sl',
+    run_prover comp lim = Ok r /\ r_result r = undfnd /\ r_last_slot r = Some sl /\
+    (forall n, ~ halts_at (to_prog comp) init_config n sl) /\
+    halts_at (to_prog comp) init_config n' sl' /\ sl' <> sl.
+Check C02_outcome_unconditional_refuted_F14 :
+  ~ (forall comp lim r apps,
+       run_prover_trace comp lim = Ok (r, apps) -> r_result r = undfnd ->
+       exists n q z, tm_steps (to_prog comp) n init_config = Some (q, z) /\
+         r_last_slot r = Some (q, zc z) /\
+         halts_at (to_prog comp) init_config n (q, zc z) /\ marks_of z = r_marks r).
+Check C02_hypotheses_fail_F14 : forall r apps,
+  run_prover_trace f14_prog 400 = Ok (r, apps) ->
+  ~ apps_real (to_prog f14_prog) apps /\ ~ apps_valid (to_prog f14_prog) apps.
